@@ -23,6 +23,11 @@ class Unsupported(Exception):
         super().__init__(f"{msg}" + (f" (line {ln})" if ln else ""))
 
 
+class PyMerge(Unsupported):
+    """`a if c else b` over two different python-level values (functions, classes): no SMT term can hold the result;
+    a statement-level conditional expression is re-executed as an `if` statement (the paths stay apart)."""
+
+
 class ContractMisfit(Exception):
     """The contract no longer fits the code (loop/variable gone, sort error)."""
 
